@@ -1,6 +1,7 @@
 import AdfObdd.Drv.Common
 import AdfObdd.NgStore
 import AdfObdd.Spec.Ng
+import AdfObdd.Spec.NgWide
 /-! protocol handler of the nogood-store family (C18).
 
     requests                          answers
@@ -8,6 +9,8 @@ import AdfObdd.Spec.Ng
     `ngmode None|Equiv|Subsume`       —
     `ngadd <vec>`                     `= ok`
     `ngconcl <vec>`                   `= conflict` | `= <vec> <update flag>`
+    `ngchain <vec>`                   `= <answer 1> ; <answer 2> ; …` — `conclusions` fed with the OBJECT it
+                                      returned, at most 3 steps, until conflict / nothing new; answers as for `ngconcl`
     `ngclosure <vec>`                 `= inconsistent` | `= noupdate` | `= update <vec>`
     `ngdump`                          `= [bucket0|bucket1|…]` (nogoods of a bucket separated by `,`)
     `ngfinish`                        —
@@ -19,7 +22,10 @@ import AdfObdd.Spec.Ng
     `= …` comes from the algorithmic model (`NgStore`: the three-mode `add_ng`, the line-by-line
     `conclusions` and `conclusion_closure`); `~ …` from the executable specification `NgSpec`,
     which only knows the flat list of added nogoods and judges the IMPLEMENTATION's answer that
-    the harness put into the `nogoodcheck` request. -/
+    the harness put into the `nogoodcheck` request. Stores of up to 10 variables are judged by the
+    brute-force specification (`Spec/Ng.lean`, all `2^n` total assignments), wider ones (up to 160
+    variables) by the search-based one (`Spec/NgWide.lean`), proved to give the same verdicts
+    (`NgWideFacts.lean`). -/
 namespace Drv
 
 structure NgStoreSt where
@@ -66,11 +72,34 @@ def ngVerdictLines (vs : List String) : List String :=
 def NgStoreSt.vec (s : NgStoreSt) (w : String) : Option PA :=
   (ngParseVec w).bind (fun v => if v.length == s.n then some v else none)
 
+/-- widest store the brute-force specification is used for -/
+def ngBruteMax : Nat := 10
+
+def NgStoreSt.conclViolations (s : NgStoreSt) (a : PA) (x : Option PA) : List String :=
+  if s.n ≤ ngBruteMax then NgSpec.conclViolations s.n s.added a x else NgSpec.conclViolationsW s.n s.added a x
+
+def NgStoreSt.closureViolations (s : NgStoreSt) (a : PA) (x : NgSpec.ClosureAns) : List String :=
+  if s.n ≤ ngBruteMax then NgSpec.closureViolations s.n s.added a x else NgSpec.closureViolationsW s.n s.added a x
+
+def NgStoreSt.storeViolations (s : NgStoreSt) (stored : List PA) : List String :=
+  if s.n ≤ ngBruteMax then NgSpec.storeViolations s.n s.added stored else NgSpec.storeViolationsW s.n s.added stored
+
+/-- `ngchain`: `conclusions` applied to the interpretation and then to the object it returned, at
+most `k` times, until a conflict or an answer that decides nothing new -/
+def ngChain (st : NgStore) : Nat → PA → List String
+  | 0, _ => []
+  | k+1, a =>
+    match st.conclusions a with
+    | none => ["conflict"]
+    | some r =>
+      let u := updateVec r a
+      s!"{ngShowVec u.1} {boolBit u.2}" :: (if u.2 then ngChain st k r else [])
+
 def ngStep (s : NgStoreSt) (l : String) (ws : List String) : Option (List String × NgStoreSt) :=
   match ws with
   | ["ngnew", n] =>
     match n.toNat? with
-    | some n => if n ≤ 10 then some ([l], { n := n, st := NgStore.new n, added := [] })
+    | some n => if n ≤ 160 then some ([l], { n := n, st := NgStore.new n, added := [] })
                 else some ([l, "= bad-request"], s)
     | none => some ([l, "= bad-request"], s)
   | ["ngmode", m] =>
@@ -90,6 +119,10 @@ def ngStep (s : NgStoreSt) (l : String) (ws : List String) : Option (List String
         let u := updateVec r a
         some ([l, s!"= {ngShowVec u.1} {boolBit u.2}"], s)
     | none => some ([l, "= bad-request"], s)
+  | ["ngchain", v] =>
+    match s.vec v with
+    | some a => some ([l, "= " ++ joinWith " ; " (ngChain s.st 3 a)], s)
+    | none => some ([l, "= bad-request"], s)
   | ["ngclosure", v] =>
     match s.vec v with
     | some a =>
@@ -104,7 +137,7 @@ def ngStep (s : NgStoreSt) (l : String) (ws : List String) : Option (List String
     match ngParseDump d with
     | some bs =>
       if bs.all (fun b => b.all (fun g => g.length == s.n)) then
-        some ([l, ngShowViolations (NgSpec.storeViolations s.n s.added bs.flatten)], s)
+        some ([l, ngShowViolations (s.storeViolations bs.flatten)], s)
       else some ([l, "~ violated nogood-mentions-variable-beyond-size"], s)
     | none => some ([l, "~ violated " ++ (if d == "panic" then "panic" else "unreadable-dump")], s)
   | "nogoodcheck" :: "concl" :: v :: ans =>
@@ -118,7 +151,7 @@ def ngStep (s : NgStoreSt) (l : String) (ws : List String) : Option (List String
           (s.vec r).map (fun r => (some r, NgSpec.clause (flag == boolBit (r != a)) "wrong-update-flag"))
         | _ => none
       match verdict with
-      | some (x, extra) => some (l :: ngVerdictLines (NgSpec.conclViolations s.n s.added a x ++ extra), s)
+      | some (x, extra) => some (l :: ngVerdictLines (s.conclViolations a x ++ extra), s)
       | none => some ([l, "~ violated " ++ (if ans == ["panic"] then "panic" else "unreadable-answer")], s)
     | none => some ([l, "~ bad-request"], s)
   | "nogoodcheck" :: "closure" :: v :: ans =>
@@ -131,7 +164,7 @@ def ngStep (s : NgStoreSt) (l : String) (ws : List String) : Option (List String
         | ["update", r] => (s.vec r).map NgSpec.ClosureAns.update
         | _ => none
       match verdict with
-      | some x => some (l :: ngVerdictLines (NgSpec.closureViolations s.n s.added a x), s)
+      | some x => some (l :: ngVerdictLines (s.closureViolations a x), s)
       | none => some ([l, "~ violated " ++ (if ans == ["panic"] then "panic" else "unreadable-answer")], s)
     | none => some ([l, "~ bad-request"], s)
   | _ => none
